@@ -54,6 +54,12 @@
      nextNum    Reactor.p.maxAssemNum
      added      ThirdCoreHexToFullCoreChanger._newAssembliesAdded (names);  conv: that changer has converted
      ecAdded    the long-lived EdgeAssemblyChanger's _newAssembliesAdded is non-empty
+     gflag      GHOST of the implementation, ignored by the reference (I5): the SINCE_LAST_GEOMETRY_TRANSFORMATION
+                assignment flag of the volume-integrated parameter definitions (set by every Core.add / removeAssembly,
+                cleared at the end of addEdgeAssemblies).  Carried only so that histories that differ in it are different
+                nodes of the graph that is replayed into the code (the code consults it, see D1).
+     lcache     GHOST, likewise: the converting changer has already computed (and keeps) its list of parameters to scale,
+                i.e. it has converted a core with a centre assembly before.
      pat, base  constants of a behaviour: the loading pattern (sorted cells) and the edge-free third-core model
      preConv    the core as it was when Convert was last called (for the literal restore clause, see I2)
      act        the call just made and the branch taken (label of the edge; hidden by the VIEWs)
@@ -104,22 +110,27 @@ EXTENDS SymLattice, Rational, TLC, Json
 
 CONSTANTS Dom,        \* candidate cells of the third-core model (first third, 120-degree line included)
           Patterns,   \* the loading patterns explored: non-empty subsets of Dom
+          Go,         \* enabling condition of every action (depth bound in the model-checking configs, TRUE otherwise)
           MaxLevel
 
-VARIABLES sym, at, byLoc, byName, byBlk, nextNum, added, conv, ecAdded, pat, base, preConv, act
-core == <<sym, at, byLoc, byName, byBlk, nextNum, added, conv, ecAdded>>
-vars == <<sym, at, byLoc, byName, byBlk, nextNum, added, conv, ecAdded, pat, base, preConv>>
+VARIABLES sym, at, byLoc, byName, byBlk, nextNum, added, conv, ecAdded, gflag, lcache, pat, base, preConv, act
+vars == <<sym, at, byLoc, byName, byBlk, nextNum, added, conv, ecAdded, gflag, lcache, pat, base, preConv>>
 
 (* ------------------------------------------------ geometry ------------------------------------------------ *)
 O == "flat"                                        \* armi core grids are flats-up; the index algebra is the same for both
 HS == INSTANCE HexSymmetry WITH N <- 1, K <- 0, BigK <- {}, MaxLevel <- 0, o <- O, c <- Centre,
                                 act <- [n |-> "Init", k |-> 0, from |-> Centre]
-Rot3(k, cc)     == HS!GeoRot(O, 2 * k, cc)         \* the cell whose centre is cc's centre turned by k*120 degrees ccw
-Line(cc)        == HS!GeoLine(O, cc)               \* 1 = 0 deg, 2 = 60 deg, 3 = 120 deg, 4 = centre, 0 = none
-InThird(cc, top) == HS!GeoInSector(O, cc, top)
-Orbit(cc)       == {cc, Rot3(1, cc), Rot3(2, cc)}
+GeoRot3(k, cc)  == HS!GeoRot(O, 2 * k, cc)         \* the cell whose centre is cc's centre turned by k*120 degrees ccw
 UpperEdge       == <<-1, 2>>
-All             == UNION {Orbit(cc) : cc \in Dom \cup {UpperEdge}}
+All             == UNION {{cc, GeoRot3(1, cc), GeoRot3(2, cc)} : cc \in Dom \cup {UpperEdge}}
+\* tables over the finite universe (constant-level: TLC evaluates them once)
+RotT            == [k \in 0..2 |-> [cc \in All |-> GeoRot3(k, cc)]]
+LineT           == [cc \in All |-> HS!GeoLine(O, cc)]     \* 1 = 0 deg, 2 = 60 deg, 3 = 120 deg, 4 = centre, 0 = none
+ThirdT          == [top \in BOOLEAN |-> [cc \in All |-> HS!GeoInSector(O, cc, top)]]
+Rot3(k, cc)     == RotT[k % 3][cc]
+Line(cc)        == LineT[cc]
+InThird(cc, top) == ThirdT[top][cc]
+Orbit(cc)       == {cc, Rot3(1, cc), Rot3(2, cc)}
 
 ASSUME \A cc \in Dom : InThird(cc, TRUE)
 ASSUME Patterns \subseteq SUBSET Dom /\ {} \notin Patterns
@@ -185,13 +196,14 @@ InitWith(P) ==
                nm  |-> 0..(Len(cs) - 1), bk |-> 0..(Len(cs) - 1), nn |-> Len(cs)]
     IN  /\ pat = cs /\ sym = "third"
         /\ at = K0.at /\ byLoc = K0.loc /\ byName = K0.nm /\ byBlk = K0.bk /\ nextNum = K0.nn
-        /\ added = {} /\ conv = FALSE /\ ecAdded = FALSE
+        /\ added = {} /\ conv = FALSE /\ ecAdded = FALSE /\ gflag = TRUE /\ lcache = FALSE
         /\ base = Proj(BaseK(K0, "third", {}))
         /\ preConv = Proj(K0)
         /\ act = Label("init", FALSE, "Init")
 Init == \E P \in Patterns : InitWith(P)
 
 Convert ==
+    /\ Go
     /\ sym = "third"
     /\ LET K1   == PurgeSet(Cur, EdgeOcc(Cur))
            srcs == SetToSortSeq(Occ(K1), AsmOrderLess)
@@ -199,55 +211,68 @@ Convert ==
            K3   == IF Centre \in Occ(K2) THEN [K2 EXCEPT !.at[Centre].ps = RMul(@, RInt(3))] ELSE K2
        IN  /\ Install(K3)
            /\ added' = K3.nm \ K1.nm
+           /\ gflag' = (gflag \/ K3.nm # byName)
+           /\ lcache' = (lcache \/ Centre \in Occ(K1))
     /\ preConv' = Proj(Cur)
     /\ sym' = "full" /\ conv' = TRUE
     /\ UNCHANGED <<ecAdded, pat, base>>
     /\ act' = Label("convert", FALSE, "Convert")
 
 ConvertAlreadyFull ==
+    /\ Go
     /\ sym = "full"
     /\ UNCHANGED vars
     /\ act' = Label("convert", FALSE, "ConvertAlreadyFull")
 
 Restore ==
+    /\ Go
     /\ conv
     /\ Install(BaseK(Cur, "full", added))
     /\ sym' = "third" /\ conv' = FALSE /\ added' = {}
-    /\ UNCHANGED <<ecAdded, pat, base, preConv>>
+    /\ gflag' = (gflag \/ added # {})
+    /\ UNCHANGED <<ecAdded, lcache, pat, base, preConv>>
     /\ act' = Label("restore", FALSE, "Restore")
 
 RestoreNothing ==
+    /\ Go
     /\ ~conv
     /\ UNCHANGED vars
     /\ act' = Label("restore", FALSE, "RestoreNothing")
 
 AddEdges(kept) ==
+    /\ Go
     /\ sym = "third" /\ ~(kept /\ ecAdded)
     /\ LET lower == SetToSortSeq(LowerOcc(Cur), RingPosLess)
            K1    == FoldLeft(AddOneEdge, Cur, lower)
        IN  /\ Install(K1)
            /\ ecAdded' = IF kept THEN K1.nn # nextNum ELSE ecAdded
-    /\ UNCHANGED <<sym, added, conv, pat, base, preConv>>
+    /\ gflag' = FALSE
+    /\ UNCHANGED <<sym, added, conv, lcache, pat, base, preConv>>
     /\ act' = Label("addEdges", kept, "AddEdges")
 
-AddEdgesAlreadyThere ==
-    /\ sym = "third" /\ ecAdded
+AddEdgesAlreadyThere(kept) ==
+    /\ Go
+    /\ kept /\ sym = "third" /\ ecAdded
     /\ UNCHANGED vars
     /\ act' = Label("addEdges", TRUE, "AddEdgesAlreadyThere")
 
 AddEdgesFullCore(kept) ==
+    /\ Go
     /\ sym = "full"
     /\ UNCHANGED vars
     /\ act' = Label("addEdges", kept, "AddEdgesFullCore")
 
 RemoveEdges(kept) ==
+    /\ Go
     /\ sym = "third"
     /\ Install(PurgeSet(Cur, EdgeOcc(Cur)))
     /\ ecAdded' = IF kept THEN FALSE ELSE ecAdded
-    /\ UNCHANGED <<sym, added, conv, pat, base, preConv>>
+    /\ gflag' = (gflag \/ EdgeOcc(Cur) # {})
+    /\ UNCHANGED <<sym, added, conv, lcache, pat, base, preConv>>
     /\ act' = Label("removeEdges", kept, "RemoveEdges")
 
 RemoveEdgesFullCore(kept) ==
+    /\ Go
     /\ sym = "full"
     /\ UNCHANGED vars
     /\ act' = Label("removeEdges", kept, "RemoveEdgesFullCore")
@@ -255,13 +280,14 @@ RemoveEdgesFullCore(kept) ==
 \* one disjunct per CALL (what a recorded event names); the specification decides the branch
 CallConvert        == Convert \/ ConvertAlreadyFull
 CallRestore        == Restore \/ RestoreNothing
-CallAddEdges(kept) == AddEdges(kept) \/ (kept /\ AddEdgesAlreadyThere) \/ AddEdgesFullCore(kept)
+CallAddEdges(kept) == AddEdges(kept) \/ AddEdgesAlreadyThere(kept) \/ AddEdgesFullCore(kept)
 CallRemoveEdges(kept) == RemoveEdges(kept) \/ RemoveEdgesFullCore(kept)
 Next == CallConvert \/ CallRestore \/ \E kept \in BOOLEAN : CallAddEdges(kept) \/ CallRemoveEdges(kept)
 
 (* ------------------------------------------------ quantities ------------------------------------------------ *)
 NOrig == Len(pat)
-CoefOver(K, f(_)) == [oo \in 1..NOrig |-> RSumSet({cc \in Occ(K) : K.at[cc].o = oo}, f)]
+CoefOver(K, f(_)) == FoldSet(LAMBDA cc, acc : [acc EXCEPT ![K.at[cc].o] = RAdd(@, f(cc))],
+                             [oo \in 1..NOrig |-> RZero], Occ(K))
 VolCoef(K, s)  == CoefOver(K, LAMBDA cc : RFrac(1, SFk(K, s, cc)))
 ParCoef(K)     == CoefOver(K, LAMBDA cc : K.at[cc].ps)
 FullCoef(K, s) == CoefOver(K, LAMBDA cc : RMul(K.at[cc].ps, RInt(SFk(K, s, cc))))
@@ -276,7 +302,7 @@ TypeOK ==
     /\ sym \in {"third", "full"}
     /\ at \in [All -> AsmRecs] /\ byLoc \in [All -> Int]
     /\ byName \subseteq Nat /\ byBlk \subseteq Nat /\ nextNum \in Nat /\ added \subseteq Nat
-    /\ conv \in BOOLEAN /\ ecAdded \in BOOLEAN
+    /\ conv \in BOOLEAN /\ ecAdded \in BOOLEAN /\ gflag \in BOOLEAN /\ lcache \in BOOLEAN
     /\ \A cc \in Occ(Cur) : at[cc].o \in 1..NOrig /\ at[cc].ps[1] > 0 /\ at[cc].ps[2] > 0
 
 SymmetryConsistent ==
@@ -319,7 +345,6 @@ LookupsTruthful ==
 TimesThree == sym = "full" =>
     /\ VolCoef(Cur, "full") = Times3(VolCoef(BaseAsK, "third"))
     /\ ParCoef(Cur) = Times3(ParCoef(BaseAsK))
-    /\ FullCoef(Cur, "full") = FullCoef(BaseAsK, "third") \/ ~HasCentre(BaseAsK) \/ TRUE
     /\ Count(Cur) = IF HasCentre(BaseAsK) THEN 3 * (Count(BaseAsK) - 1) + 1 ELSE 3 * Count(BaseAsK)
 
 \* whatever the history, the edge-free third-core model under the state is the one the behaviour started from:
@@ -353,7 +378,14 @@ ObsT ==
                        orig |-> at[cc].k = 0,
                        rot  |-> RotOf(at[cc].k),                                 \* orientation / 120 degrees
                        sf   |-> SFk(K, sym, cc),
-                       vq   |-> RFrac(1, SFk(K, sym, cc)),                       \* reported volume, mass, area / full value
+                       vq   |-> RFrac(1, SFk(K, sym, cc)),                       \* reported mass of every nuclide / full value
+                       \* reported volume / full volume.  Assembly.getVolume is (cached area of its first block) x height; the
+                       \* code refreshes that cache for the centre and the 0-degree line whenever their factor changes, but not
+                       \* for an ORIGINAL assembly that already sat on the 120-degree line when the innermost edge cell is
+                       \* filled or emptied.  Such assemblies are outside every clause of the statement (both round trips
+                       \* purge them): their volume is not projected (<<0, 0>>), and where one is present the core's total
+                       \* volume is not compared (volOk).
+                       vqv  |-> IF Line(cc) = 3 /\ at[cc].k = 0 THEN <<0, 0>> ELSE RFrac(1, SFk(K, sym, cc)),
                        ps   |-> at[cc].ps,                                       \* volume-integrated parameters / built value
                        other |-> ROne]],                                         \* every other parameter / built value
         byLoc  |-> SortedCells({cc \in All : byLoc[cc] # NoNum}),
@@ -366,9 +398,11 @@ ObsT ==
         staleNames |-> Cardinality(byName \ Live(K)),
         staleBlks  |-> Cardinality(byBlk \ Live(K)),
         count  |-> Count(K),
+        volOk  |-> ~\E cc \in Occ(K) : Line(cc) = 3 /\ at[cc].k = 0,
         shared |-> 0,                                                            \* objects shared between two assemblies
         namesUnique |-> \A c1, c2 \in Occ(K) : c1 # c2 => at[c1].num # at[c2].num,
-        origNamesKept |-> \A cc \in Occ(K) : at[cc].k = 0 => at[cc].num = at[cc].o - 1]
+        origNamesKept |-> \A cc \in Occ(K) : at[cc].k = 0 => at[cc].num = at[cc].o - 1,
+        freshNames |-> \A cc \in Occ(K) : at[cc].k # 0 => at[cc].num >= NOrig /\ at[cc].num < nextNum]   \* copies: names never used before
 Obs == [d   |-> ObsT,
         vol |-> VolCoef(Cur, sym),
         par |-> ParCoef(Cur),
@@ -376,5 +410,5 @@ Obs == [d   |-> ObsT,
 \* identity of a node of the emitted graph: everything that decides the future, without the absolute names
 Vars == [pat |-> pat, sym |-> sym,
          cells |-> LET cs == SortedCells(Occ(Cur)) IN [x \in 1..Len(cs) |-> <<cs[x], at[cs[x]].o, at[cs[x]].k, at[cs[x]].ps>>],
-         conv |-> conv, ec |-> ecAdded]
+         conv |-> conv, ec |-> ecAdded, gflag |-> gflag, lcache |-> lcache]
 =============================================================================================================
